@@ -7,9 +7,12 @@ import (
 	"math/rand"
 	"os"
 	"sort"
+	"strings"
 	"sync"
+	"sync/atomic"
 	"time"
 
+	"github.com/ansible/receptor/pkg/logger"
 	"github.com/ansible/receptor/pkg/netceptor"
 	"verif/harness/mesh"
 	"verif/harness/trace"
@@ -42,6 +45,17 @@ func cmdAdsMesh(args []string) {
 	res := &Result{}
 	defer res.write(*out)
 	_ = trace.Install()
+	// race between an advertisement round and Close: advertisement rounds are slowed down through the public
+	// logger hook so that a Close can land between the listener snapshot and the sending of that service's ad
+	if viol, n, inconcl := runAdsChurn(*seed, *scenarios); inconcl != "" {
+		res.Inconclusive = append(res.Inconclusive, inconcl)
+	} else {
+		for _, v := range viol {
+			res.violate(v.Sig, v.What, v.Replay)
+		}
+		res.count("churn_closes")
+		res.Counters["churn_closes"] = n
+	}
 	finals := make([]*adsFinal, *scenarios)
 	errs := make([]string, *scenarios)
 	sem := make(chan struct{}, *par)
@@ -241,4 +255,85 @@ func runAdsMeshScenario(rng *rand.Rand, idx int) (*adsFinal, string) {
 	}
 
 	return fin, ""
+}
+
+// runAdsChurn: two real nodes; the owner has four advertised listeners and re-advertises every 30 ms; every
+// "Sending service advertisement" is slowed by 3 ms (logger hook), so a round lasts >= 12 ms. One listener at
+// a time is closed at a random moment; once the peer has dropped it, it must not be listed again while closed.
+func runAdsChurn(seed int64, scale int) (viol []Violation, closes int, inconcl string) {
+	var slow int32 = 1
+	logger.RegisterLogger(func(_ int, format string, _ ...interface{}) {
+		if atomic.LoadInt32(&slow) == 1 && strings.HasPrefix(format, "Sending service advertisement") {
+			time.Sleep(3 * time.Millisecond)
+		}
+	})
+	defer func() { atomic.StoreInt32(&slow, 0) }()
+	rng := rand.New(rand.NewSource(seed * 2654435761))
+	m := mesh.New(mesh.Opts{RouteUpdate: 300 * time.Millisecond, ServiceAd: 30 * time.Millisecond}, seed+4242)
+	defer m.StopAll()
+	owner, peerN := m.Start("chO"), m.Start("chP")
+	if _, err := m.Connect("chO", "chP", 1, 1); err != nil {
+		return nil, 0, err.Error()
+	}
+	svcs := []string{"c1", "c2", "c3", "c4"}
+	open := map[string]netceptor.PacketConner{}
+	listen := func(s string) bool {
+		pc, err := owner.N.ListenPacketAndAdvertise(s, map[string]string{"k": s})
+		if err != nil {
+			return false
+		}
+		open[s] = pc
+
+		return true
+	}
+	for _, s := range svcs {
+		if !listen(s) {
+			return nil, 0, "listen failed"
+		}
+	}
+	listed := func(s string) bool { _, ok := peerN.N.GetServiceInfo("chO", s); return ok }
+	waitFor := func(cond func() bool, d time.Duration) bool {
+		dl := time.Now().Add(d)
+		for !cond() {
+			if time.Now().After(dl) {
+				return false
+			}
+			time.Sleep(time.Millisecond)
+		}
+
+		return true
+	}
+	for _, s := range svcs {
+		if !waitFor(func() bool { return listed(s) }, 20*time.Second) {
+			return nil, 0, "peer never learnt " + s
+		}
+	}
+	total := 40
+	if scale > 50 {
+		total = 300
+	}
+	for i := 0; i < total; i++ {
+		s := svcs[rng.Intn(len(svcs))]
+		time.Sleep(time.Duration(rng.Intn(30000)) * time.Microsecond)
+		_ = open[s].Close()
+		closes++
+		if !waitFor(func() bool { return !listed(s) }, 20*time.Second) {
+			return viol, closes, "peer never dropped the withdrawn service"
+		}
+		// it must stay withdrawn: several advertisement rounds pass
+		if waitFor(func() bool { return listed(s) }, 120*time.Millisecond) {
+			viol = append(viol, Violation{"C18:closed-service-listed-again", fmt.Sprintf("service %s of the owner was closed, the peer dropped it, and %d closes into the run the peer lists it again although it is still closed", s, closes),
+				map[string]any{"scenario": "ads-churn", "close_number": closes}})
+
+			return viol, closes, ""
+		}
+		if !listen(s) {
+			return viol, closes, "re-listen failed"
+		}
+		if !waitFor(func() bool { return listed(s) }, 20*time.Second) {
+			return viol, closes, "peer never re-learnt " + s
+		}
+	}
+
+	return viol, closes, ""
 }
